@@ -107,8 +107,21 @@ func inscription(k key, ctype string, data []byte, tail [][]byte) []byte {
 	if err := scratch.Inscribe(args); err != nil {
 		panic(err)
 	}
-	return *scratch.Outputs[0].LockingScript
+	out := []byte(*scratch.Outputs[0].LockingScript)
+	if nonMinimalPush && len(data) >= 1 && len(data) <= 75 && len(tail) == 0 {
+		// the same inscription with its data pushed through OP_PUSHDATA1: another spent script, the same parts
+		if i := bytes.LastIndex(out, append([]byte{byte(len(data))}, data...)); i > 0 && i+1+len(data)+1 == len(out) {
+			re := append([]byte{}, out[:i]...)
+			re = append(re, 0x4c, byte(len(data)))
+			re = append(re, data...)
+			out = append(re, 0x68)
+		}
+	}
+	return out
 }
+
+// nonMinimalPush: the next inscription previous output pushes its data with OP_PUSHDATA1
+var nonMinimalPush bool
 
 // ---------- the table, re-stated in Go (the search predicate) ----------
 
@@ -327,7 +340,9 @@ func buildTx(r *common.Rand, sh shape, kind string) built {
 			if i == sh.idx {
 				tail = nil // the signed position keeps the exact template shape the acceptance theorem is stated for
 			}
+			nonMinimalPush = r.Chance(30)
 			lock = inscription(k, []string{"text/plain", "a/b", ""}[r.Intn(3)], r.Bytes(r.Intn(12)), tail)
+			nonMinimalPush = false
 		} else {
 			lock = p2pkh(k)
 		}
@@ -552,9 +567,7 @@ func runCase(r *common.Rand, sh shape, kind string, ht uint8, flags uint32, viaF
 		return
 	}
 	tw.Tx = s
-	if forkid {
-		inMemorySpentValue(s, sh.idx, flags, tw)
-	}
+	inMemorySpentValue(s, sh.idx, flags, tw, forkid)
 	resignHistory(r, b, ht, flags, viaFillAll, tw)
 	// every input: the unlocking script is push(sig ++ [requested type]) push(pubkey); the interpreter accepts
 	type verEntry struct {
@@ -709,7 +722,7 @@ func main() {
 // spent output's script and value) verified against a previous output whose value was changed — the
 // FORKID digest commits to the spent value, so only the original value may be accepted, whatever the
 // object remembers. Values: the original, 0, original-1, original+1.
-func inMemorySpentValue(s txgen.TxSpec, i int, flags uint32, tw twin) {
+func inMemorySpentValue(s txgen.TxSpec, i int, flags uint32, tw twin, forkid bool) {
 	orig := s.Ins[i].Sats
 	for _, v := range []uint64{orig, 0, orig - 1, orig + 1} {
 		tx := txgen.Build(s)
@@ -723,8 +736,11 @@ func inMemorySpentValue(s txgen.TxSpec, i int, flags uint32, tw twin) {
 			c.Violate("Engine.Execute/panic", pm, tw)
 		case v == orig && err != nil:
 			c.Violate("sign-verify/rejects-own-signature(in-memory tx)", err.Error(), tw)
-		case v != orig && err == nil:
+		case v != orig && err == nil && forkid:
 			c.Violate("mutation/spent-value/accepted-but-committed(in-memory tx)", fmt.Sprintf("spent value %d instead of %d accepted", v, orig), tw)
+		case v != orig && err != nil && !forkid:
+			// the original digest does not commit to the spent value: whatever the object remembers, the input stays valid
+			c.Violate("mutation/spent-value/rejected-but-not-committed(in-memory tx)", fmt.Sprintf("spent value %d instead of %d: %v", v, orig, err), tw)
 		}
 	}
 }
